@@ -32,7 +32,9 @@ def values(ctx):
 def objects():
     return [b"bytes", "text", "é€\U0001F600", 0, 1, -1, 10 ** 40, -10 ** 400, True, False, None, 1.5, float("inf"), [1, "a", b"b", None],
             {"k": [1, 2, {"n": (1, 2)}]}, (1, (2, (3,))), {1, 2}, frozenset({"a"}), IntSub(5), StrSub("s"), BytesSub(b"b"), DictSub(a=1),
-            "x" * 5000, b"y" * 5000, list(range(300)), "", b"", 2 ** 64, complex(1, 2)]
+            "x" * 5000, b"y" * 5000, list(range(300)), "", b"", 2 ** 64, complex(1, 2),
+            bytes((i * 197 + (i >> 3) * 31 + i * i) % 256 for i in range(1500)), __import__("zlib").compress(b"already compressed" * 200) * 1,
+            __import__("os").urandom(0) + bytes(__import__("random").Random(7).randrange(256) for _ in range(2000))]
 
 
 def chunker(rng, mode):
@@ -243,6 +245,30 @@ def main(argv):
                     sent = b"".join(d for cn in world.conns for _, d in cn.sent)
                     if pfx and any((b" " + k.encode() + b"\r\n") in sent or (b" " + k.encode() + b" ") in sent for k in ks if isinstance(k, str) and len(k) > 1):
                         ctx.violation("an un-prefixed key appeared on the wire", dict(case, sent=hx(sent[:100])), tags=tags)
+    # 5. the prefix is a faithful namespace even for keys that themselves start with the prefix bytes
+    for pfx in (b"user:", b"p", b"ns:"):
+        for k in (b"42", "42", b"x"):
+            k2 = pfx + k if isinstance(k, bytes) else pfx.decode() + k
+            srv, world, c = mk(pfx=pfx)
+            case = {"prefix": hx(pfx), "keys": [repr(k), repr(k2)]}
+            ctx.case(("namespace", pfx, repr(k)))
+            ctx.count("prefix-namespace")
+            try:
+                c.set(k, b"value-of-k", noreply=False)
+                c.set(k2, b"value-of-prefix+k", noreply=False)
+                g1, g2 = c.get(k), c.get(k2)
+                gm = c.get_many([k, k2])
+            except Exception as e:
+                ctx.violation("store/fetch raised for keys that start with the prefix", dict(case, error=repr(e)[:80]), tags=["prefix-namespace"])
+                continue
+            wk1 = pfx + (k if isinstance(k, bytes) else k.encode())
+            wk2 = pfx + (k2 if isinstance(k2, bytes) else k2.encode())
+            if (g1, g2) != (b"value-of-k", b"value-of-prefix+k") or gm != {k: b"value-of-k", k2: b"value-of-prefix+k"}:
+                ctx.violation("a key that starts with the prefix bytes returned another key's value / was lost in get_many", dict(case, got=[repr(g1), repr(g2), repr(gm)[:80]]),
+                              tags=["prefix-namespace"])
+            if set(srv.store.items) != {wk1, wk2}:
+                ctx.violation("the prefix was not applied on the wire to a key that starts with the prefix bytes", dict(case, server_keys=sorted(map(hx, srv.store.items))),
+                              tags=["prefix-namespace"])
     # Lean model comparison (default serde cases)
     if ctx.lean.build_ok:
         outs = ctx.driver.batch(lines)
